@@ -159,14 +159,15 @@ Proof.
            _ _ _ _ Ei Hc Ht D3).
 Qed.
 
-Theorem root_up ty r t :
-  vproj T w f v (fuel_of w) ty r = Some t -> Valid T w f v ty r ->
-  rootrestb T tab_el tab_at tab_en check_fn float_fmt float_parse v t = true ->
-  rootcanonb T tab_el tab_at tab_en check_fn float_fmt float_parse v t = true.
+Theorem root_up ty r name ty0 attrs content cm attrs' :
+  vproj T w f v (fuel_of w) ty r = Some (ENode name ty0 attrs content cm) -> Valid T w f v ty r ->
+  rootrestb T tab_el tab_at tab_en check_fn float_fmt float_parse v (ENode name ty0 attrs' content cm) = true ->
+  rootcanonb T tab_el tab_at tab_en check_fn float_fmt float_parse v (ENode name ty0 attrs' content cm) = true.
 Proof.
   intros HP HV HR. unfold fuel_of in HP. cbn [vproj] in HP.
   destruct (w_nodes w r) as [n|] eqn:En; [|discriminate].
-  destruct (vproj_items T w f v (vproj T w f v (N.to_nat (w_next w))) ty (n_content n)) as [content|] eqn:Ei; [|discriminate]. injection HP as <-.
+  destruct (vproj_items T w f v (vproj T w f v (N.to_nat (w_next w))) ty (n_content n)) as [content0|] eqn:Ei; [|discriminate].
+  injection HP as <- <- <- <- <-.
   destruct (valid_inv _ _ _ HV En) as (_ & Ht & Hc).
   unfold rootrestb in HR. unfold rootcanonb.
   destruct (elem T (autosar_element T)) as [e| |]; try discriminate.
@@ -178,6 +179,103 @@ Proof.
   rewrite !andb_true_iff. repeat split; [exact G1|exact G2|].
   exact (children_up (vproj T w f v (N.to_nat (w_next w))) ty mode (fun tc c t H => vproj_name_type _ tc c t H)
            (fun tc c t H => canon_up _ tc c t H) _ _ _ _ Ei Hc Ht G3).
+Qed.
+
+(* ---- the other direction: a canonical projection is valid in v ---- *)
+Lemma valokb_down spec d : VALOK v spec (to_pc d) = true -> value_valid v d spec.
+Proof.
+  unfold value_valid, value_compat. destruct spec as [items|fn maxlen|pres maxlen| |]; try reflexivity.
+  destruct d as [e|s|n|b]; cbn [to_pc valokb]; try discriminate.
+  destruct (to_str tab_en e) as [str|]; [|discriminate].
+  destruct (find (fun it => fst it =? e) items) as [[i mask]|]; cbn [fst]; [|intros H; rewrite andb_false_r in H; discriminate].
+  rewrite !andb_true_iff. intros [_ Hm]. rewrite N.land_comm. exact Hm.
+Qed.
+
+Lemma attrsokb_down ty (attrs : list (N * Heap.cdata)) :
+  attrsokb T tab_at tab_en check_fn float_fmt float_parse v ty (pc_attrs attrs) = true -> Forall (CompatSpec.attr_valid T v ty) attrs.
+Proof.
+  unfold attrsokb. rewrite andb_true_iff. intros [A _]. rewrite forallb_forall in A. apply Forall_forall. intros a Ha.
+  assert (Hin : In (fst a, to_pc (snd a)) (pc_attrs attrs)) by (apply in_map_iff; exists a; split; [reflexivity|exact Ha]).
+  specialize (A _ Hin). unfold attrokb in A. cbn [fst snd] in A.
+  destruct (to_str tab_at (fst a)) as [nm|]; [|discriminate]. apply andb_true_iff in A as [_ A].
+  destruct (find_attribute_spec T ty (fst a)) as [[[[[cd spec] req] m]|]| |] eqn:Ef; try discriminate.
+  rewrite !andb_true_iff in A. destruct A as [[A1 A2] _].
+  exists cd, spec, req, m. split; [exact Ef|]. split; [|exact (valokb_down _ _ A2)].
+  unfold compatible. rewrite N.land_comm. exact A1.
+Qed.
+
+Lemma textokb_down ty d : textokb T tab_en check_fn float_fmt float_parse v ty (to_pc d) = true -> text_valid T v ty (CData d).
+Proof.
+  unfold textokb. cbn [text_valid]. intros H spec Hs. rewrite Hs in H.
+  destruct (is_ref T ty) as [isr| |]; try discriminate. apply andb_true_iff in H as [A _]. exact (valokb_down _ _ A).
+Qed.
+
+Lemma children_down (rec : N * N -> id -> option etree) ty mode :
+  (forall tc c t, rec tc c = Some t -> (exists n, w_nodes w c = Some n /\ e_name t = n_name n /\ e_type t = tc)) ->
+  (forall tc c t, rec tc c = Some t -> CANONB t = true -> Valid T w f v tc c) ->
+  forall l content prev pre,
+    vproj_items T w f v rec ty l = Some content ->
+    childrenb_gen T tab_en check_fn float_fmt float_parse v CANONB ty mode prev pre content = true ->
+    child_valid T w f v ty l /\ Forall (text_valid T v ty) l.
+Proof.
+  intros Hnt Hrec. induction l as [|it rest IH]; intros content prev pre HP HR.
+  - split; [intros c cn []|constructor].
+  - destruct it as [c|d]; cbn [vproj_items] in HP.
+    + destruct (w_nodes w c) as [cn|] eqn:Ecn; [|discriminate].
+      destruct (in_file f cn) eqn:Ef.
+      * destruct (find_sub_element T ty (n_name cn) v) as [[[tc ixs]|]| |] eqn:Efind; try discriminate.
+        destruct (rec tc c) as [t|] eqn:Er; [|discriminate].
+        destruct (vproj_items T w f v rec ty rest) as [rest'|] eqn:Ei; [|discriminate].
+        injection HP as <-.
+        destruct (Hnt _ _ _ Er) as (n' & Hn' & Hname & Htype). rewrite Ecn in Hn'. injection Hn' as <-.
+        rewrite childrenb_unfold in HR. rewrite Hname, Efind in HR.
+        rewrite !andb_true_iff in HR. destruct HR as [[[[A B] C] D] E].
+        destruct (IH _ _ _ eq_refl E) as [HC HT]. split; [|constructor; [exact I|exact HT]].
+        intros c' cn' [Hc|Hc] Hn2 Hf2; [|exact (HC c' cn' Hc Hn2 Hf2)].
+        injection Hc as <-. rewrite Ecn in Hn2. injection Hn2 as <-.
+        exists tc, ixs. split; [exact Efind|exact (Hrec _ _ _ Er D)].
+      * destruct (IH _ _ _ HP HR) as [HC HT]. split; [|constructor; [exact I|exact HT]].
+        intros c' cn' [Hc|Hc] Hn2 Hf2; [|exact (HC c' cn' Hc Hn2 Hf2)].
+        injection Hc as <-. rewrite Ecn in Hn2. injection Hn2 as <-. rewrite Ef in Hf2. discriminate.
+    + destruct (vproj_items T w f v rec ty rest) as [rest'|] eqn:Ei; [|discriminate]. cbn [option_map] in HP. injection HP as <-.
+      rewrite childrenb_unfold in HR. rewrite !andb_true_iff in HR. destruct HR as [[A B] C].
+      destruct (IH _ _ _ eq_refl C) as [HC HT]. split.
+      * intros c' cn' [Hc|Hc]; [discriminate|exact (HC c' cn' Hc)].
+      * constructor; [exact (textokb_down _ _ A)|exact HT].
+Qed.
+
+Theorem canon_down fuel : forall ty i t, vproj T w f v fuel ty i = Some t -> CANONB t = true -> Valid T w f v ty i.
+Proof.
+  induction fuel as [|fl IH]; intros ty i t HP HR; [discriminate|].
+  cbn [vproj] in HP. destruct (w_nodes w i) as [n|] eqn:En; [|discriminate].
+  destruct (vproj_items T w f v (vproj T w f v fl) ty (n_content n)) as [content|] eqn:Ei; [|discriminate]. injection HP as <-.
+  rewrite canonb_node in HR. rewrite !andb_true_iff in HR. destruct HR as [[[A B] C] D].
+  destruct (content_mode T ty) as [mode| |]; try discriminate.
+  rewrite !andb_true_iff in D. destruct D as [[D1 D2] D3].
+  destruct (children_down (vproj T w f v fl) ty mode (fun tc c t H => vproj_name_type fl tc c t H) (fun tc c t H => IH tc c t H)
+              _ _ _ _ Ei D3) as [HC HT].
+  econstructor; [exact En|exact (attrsokb_down _ _ C)|exact HT|exact HC].
+Qed.
+
+(* for the root the header attributes are judged with the 4.0.1 placeholder by strict loading; ValidIn judges them with v *)
+Theorem root_down ty r t :
+  vproj T w f v (fuel_of w) ty r = Some t ->
+  rootcanonb T tab_el tab_at tab_en check_fn float_fmt float_parse v t = true ->
+  (forall n, w_nodes w r = Some n -> Forall (CompatSpec.attr_valid T v ty) (n_attrs n)) ->
+  Valid T w f v ty r.
+Proof.
+  intros HP HR Hattrs. unfold fuel_of in HP. cbn [vproj] in HP.
+  destruct (w_nodes w r) as [n|] eqn:En; [|discriminate].
+  destruct (vproj_items T w f v (vproj T w f v (N.to_nat (w_next w))) ty (n_content n)) as [content|] eqn:Ei; [|discriminate]. injection HP as <-.
+  unfold rootcanonb in HR.
+  destruct (elem T (autosar_element T)) as [e| |]; try discriminate.
+  destruct (version_of_ident "Autosar_4_0_1") as [v401|]; try discriminate.
+  rewrite !andb_true_iff in HR. destruct HR as [_ G].
+  destruct (content_mode T ty) as [mode| |]; try discriminate.
+  rewrite !andb_true_iff in G. destruct G as [[G1 G2] G3].
+  destruct (children_down (vproj T w f v (N.to_nat (w_next w))) ty mode (fun tc c t H => vproj_name_type _ tc c t H)
+              (fun tc c t H => canon_down _ tc c t H) _ _ _ _ Ei G3) as [HC HT].
+  econstructor; [exact En|exact (Hattrs n eq_refl)|exact HT|exact HC].
 Qed.
 
 (* ---- strict loading of the projection ---- *)
@@ -194,25 +292,48 @@ Proof.
   exact (file_roundtrip true T tab_el tab_at tab_en check_fn float_fmt float_parse v t sa body RC Hb).
 Qed.
 
-Theorem valid_loads t :
-  file_tree T w f v t -> ValidIn T w f v ->
-  rootrestb T tab_el tab_at tab_en check_fn float_fmt float_parse v t = true -> loads_strictly t.
+(* ArxmlFile::serialize first rewrites the root's xsi:schemaLocation for the file version (only the root's attribute list changes) *)
+Lemma set_version_shape name ty attrs content cm t' :
+  Serializer.set_version T tab_at check_fn v (ENode name ty attrs content cm) = Val t' -> exists attrs', t' = ENode name ty attrs' content cm.
 Proof.
-  intros (r & ty & Hroot & HP) (r' & ty' & Hroot' & HV) HR.
+  unfold Serializer.set_version. destruct (from_bytes tab_at (BS "xsi:schemaLocation")) as [a| |]; try discriminate.
+  destruct (schema_location_value v) as [value| |]; cbn [bind]; try discriminate.
+  destruct (find_attribute_spec T ty a) as [[[[[cd ctype] req] m]|]| |]; cbn [bind]; try discriminate.
+  - destruct (check_value_string check_fn ctype value) as [[|]| |]; cbn [bind]; try discriminate; intros [= <-]; eauto.
+  - intros [= <-]. eauto.
+Qed.
+
+(* the tree ArxmlFile::serialize writes for file f when its version is v: the v-typed projection with the relabelled root *)
+Definition relabelled_tree (t' : etree) : Prop :=
+  exists t, file_tree T w f v t /\ Serializer.set_version T tab_at check_fn v t = Val t'.
+
+Lemma relabelled_text t' body sa : relabelled_tree t' -> ser_elem T tab_el tab_at tab_en float_fmt t' 0 false = Val body ->
+  exists t, file_tree T w f v t /\ serialize_file T tab_el tab_at tab_en check_fn float_fmt v sa t = Val (xml_header sa ++ body).
+Proof.
+  intros (t & Ht & Hs) Hb. exists t. split; [exact Ht|]. unfold serialize_file. rewrite Hs. cbn [bind]. rewrite Hb. reflexivity.
+Qed.
+
+Theorem valid_loads t' :
+  relabelled_tree t' -> ValidIn T w f v ->
+  rootrestb T tab_el tab_at tab_en check_fn float_fmt float_parse v t' = true -> loads_strictly t'.
+Proof.
+  intros (t & (r & ty & Hroot & HP) & Hs) (r' & ty' & Hroot' & HV) HR.
   assert (r' = r /\ ty' = ty) as [-> ->].
   { destruct Hroot as (x & m & n & Hx & Hm & Er & Hn & Et), Hroot' as (x' & m' & n' & Hx' & Hm' & Er' & Hn' & Et').
     assert (x' = x) by congruence. subst x'. assert (m' = m) by congruence. subst m'. subst r r'.
     assert (n' = n) by congruence. subst n'. subst. auto. }
-  apply canonical_loads. exact (root_up ty r t HP HV HR).
+  apply canonical_loads. destruct t as [name ty0 attrs content cm].
+  destruct (set_version_shape _ _ _ _ _ _ Hs) as (attrs' & ->).
+  exact (root_up ty r name ty0 attrs content cm attrs' HP HV HR).
 Qed.
 
-(* a clean check: the projection loads strictly as v *)
-Theorem clean_loads errs mask t :
+(* a clean check: what ArxmlFile::serialize writes after the relabelling loads strictly as v *)
+Theorem clean_loads errs mask t' :
   NoKnown T w f v -> f_check T w f v = Val (errs, mask) -> errs = [] ->
-  file_tree T w f v t -> rootrestb T tab_el tab_at tab_en check_fn float_fmt float_parse v t = true -> loads_strictly t.
+  relabelled_tree t' -> rootrestb T tab_el tab_at tab_en check_fn float_fmt float_parse v t' = true -> loads_strictly t'.
 Proof.
   intros (Kr & Km & Ks) Hc He Ht HR.
-  apply (valid_loads t Ht); [|exact HR].
+  apply (valid_loads t' Ht); [|exact HR].
   apply (f_check_exact T w f v Km Ks Kr (errs, mask) Hc). exact He.
 Qed.
 
